@@ -836,6 +836,11 @@ Definition meth_ids (m : meth) : N * N :=
 Definition is_conn_class (m : meth) : bool := fst (meth_ids m) =? 10.
 Definition is_chan_close (m : meth) : bool := match m with MChannelClose | MChannelCloseOk => true | _ => false end.
 
+Definition orphan (tag : string) (u : unacked) : unacked :=
+  if seqb (u_ctag u) tag
+  then {| u_tag := u_tag u; u_ctag := ""%string; u_queue := u_queue u; u_qid := u_qid u; u_msg := u_msg u |}
+  else u.
+
 Definition handle_method (cfg : config) (fx : fixes) (s : state) (c h : N) (m : meth) : state * list event * option aerr :=
   match get_chan s c h with
   | None => (s, [], None)
@@ -1027,6 +1032,9 @@ Definition handle_method (cfg : config) (fx : fixes) (s : state) (c h : N) (m : 
     | Some _ =>
       let s := consumer_stop s c h tag in
       let s := upd_chan s c h (fun ch => ch <| ch_consumers ::= filter (fun cm => negb (seqb (c_tag cm) tag)) |>) in
+      (* the consumer's unsettled deliveries no longer belong to the tag (a consumer started later under the same tag
+         has its own window): they are settled like the deliveries of a basic.get *)
+      let s := upd_chan s c h (fun ch => ch <| ch_unacked ::= map (orphan tag) |>) in
       ok s (if fx_nowait fx && nowait then [] else out1 c h (SCancelOk tag))
     end
   | MGet q noack =>
@@ -1313,7 +1321,9 @@ Definition step (cfg : config) (fx : fixes) (s : state) (l : label) : state * li
     let add := filter (fun k => negb (existsb (fun d => (fst d =? fst k) && seqb (snd d) (snd k)) (st_del s))) (st_add s) in
     let settled := filter (fun k => existsb (fun d => (fst d =? fst k) && seqb (snd d) (snd k)) (st_del s)) (st_add s) in
     let del := filter (fun d => negb (existsb (fun k => (fst d =? fst k) && seqb (snd d) (snd k)) (st_add s))) (st_del s) in
-    let db := filter (fun k => negb (existsb (fun d => (fst d =? fst k) && seqb (snd d) (snd k)) del)) (st_db s ++ add) in
+    (* the store is a map: an add of a key that is already there (written back by a requeue meanwhile) replaces it *)
+    let fresh := filter (fun k => negb (existsb (fun d => (fst d =? fst k) && seqb (snd d) (snd k)) (st_db s))) add in
+    let db := filter (fun k => negb (existsb (fun d => (fst d =? fst k) && seqb (snd d) (snd k)) del)) (st_db s ++ fresh) in
     let s := s <| st_db := db |> <| st_add := [] |> <| st_del := [] |> in
     (fold_left (fun s k => store_confirm s (fst k)) (add ++ settled) s, [])
   | LRelay =>
